@@ -99,9 +99,9 @@ func VerifRibNodes() (nodes int, dead int) {
 
 // VerifFibShape is a white-box walk of the FIB/strategy table (either implementation).
 type VerifFibShape struct {
-	Nodes int // tree: nodes excluding the root; hash table: real entries excluding the root entry
-	Dead  int // tree: leaves with neither next hops nor strategy; hash table: real entries with neither
-	Virt  int // hash table: virtual entries
+	Nodes    int // tree: nodes excluding the root; hash table: real entries excluding the root entry
+	Dead     int // tree: leaves with neither next hops nor strategy; hash table: real entries with neither
+	Virt     int // hash table: virtual entries
 	VirtDead int // hash table: virtual entries that no longer cover any real name
 }
 
@@ -138,4 +138,27 @@ func VerifFibShapeOf() VerifFibShape {
 		}
 	}
 	return s
+}
+
+// VerifRibRoute is one route of the RIB with its prefix.
+type VerifRibRoute struct {
+	Name  enc.Name
+	Route Route
+}
+
+// VerifRibRoutes reads all routes without taking the RIB mutex (for a harness that has parked every other goroutine,
+// possibly one that holds the mutex).
+func VerifRibRoutes() []VerifRibRoute {
+	var out []VerifRibRoute
+	var walk func(e *RibEntry)
+	walk = func(e *RibEntry) {
+		for _, r := range e.routes {
+			out = append(out, VerifRibRoute{Name: e.Name, Route: *r})
+		}
+		for c := range e.children {
+			walk(c)
+		}
+	}
+	walk(&Rib.RibEntry)
+	return out
 }
